@@ -172,6 +172,37 @@ _branch("COMMENT", "comment", ["comment", "rsc"], post_verbatim("comment", "COMM
 _branch(T("TOKEN_CONTENT"), "content", ["rstrip"], post_content, None)
 
 
+# ---- comment-like tags consume exactly their own tokens (the parser advances once more after
+# ---- every tag): text that follows a comment is never swallowed
+
+def _inline_comment(with_text):
+    @contract("liquid.builtin.tags.inline_comment_tag:InlineCommentTag.parse", prop="C10", name=f"InlineCommentTag.parse[{'with-text' if with_text else 'empty'}]")
+    def icp(c):
+        def tok(kind, name):
+            return c.obj("liquid.token:Token", name, kind=const(kind), value=c.str(name + "_value"), start_index=c.int(name + "_si"), source=c.str("src"))
+        toks = [tok(T("TOKEN_TAG"), "tag")] + ([tok(T("TOKEN_EXPRESSION"), "comment_text")] if with_text else []) + [tok(T("TOKEN_CONTENT"), "following_text")]
+        stream = c.obj("liquid.stream:TokenStream", "stream", tokens=c.st.alloc(HList(items=list(toks))), pos=const(0), block_depth=const(0))
+        tag = c.obj("liquid.builtin.tags.inline_comment_tag:InlineCommentTag", "tag", env=c.any("env"))
+        c.call(stream, self_val=tag)
+        last_own = 1 if with_text else 0
+        c.ensures("stops-on-its-own-last-token(the-following-text-is-not-consumed)", lambda r: r.st.deref(stream).fields["pos"].t == last_own)
+        c.raises("LiquidSyntaxError")
+        c.ensures_exc("error-only-for-comment-text", lambda r: z3.BoolVal(with_text))
+        c.replay("code", code=REPLAY_INLINE)
+
+
+_inline_comment(True)
+_inline_comment(False)
+
+REPLAY_INLINE = r'''
+def run(m):
+    from liquid import Environment
+    env = Environment()
+    out = [env.from_string(s).render() for s in ("a {% # %} b", "a {%#%}b", "a {% # note %} b", "a {%- # -%} b{{ 1 }}")]
+    return {"violated": out != ["a  b", "a b", "a  b", "ab1"], "observed": out}
+'''
+
+
 @structural("C10", "pattern-shape")
 def pattern_shape():
     obs = []
@@ -184,6 +215,10 @@ def pattern_shape():
     # is then stripped by a pending closing hyphen), `\Z` does not
     for cname, ctext in sorted((k, v[1]) for k, v in H.items() if k.startswith("content_pattern")):
       obs.append(flow.ob(f"{cname}:a-text-run-ends-only-at-an-opening-delimiter-or-the-end-of-the-source(\\Z)", ctext.endswith("|\\Z)") and "$" not in ctext, f"pattern = {ctext[:140]}", replay_schema="code", replay_extra={"code": REPLAY_EOL}))
+      # the optional hyphen of an OPENING delimiter is looked for after every kind of opening delimiter
+      import re as _re
+      shape = _re.search(r"\(\?=\(\((\{\w+\}\|)+\{\w+\}\)\(\?P<rstrip>-\?\)\)\|", ctext)
+      obs.append(flow.ob(f"{cname}:the-opening-hyphen-group-follows-every-opening-delimiter-alternative", shape is not None, f"pattern = {ctext[:140]}", replay_schema="code", replay_extra={"code": REPLAY_EOL}))
     # rendering side: comment/doc nodes write nothing, content writes exactly its text
     for m, cls, expect in (("liquid.builtin.tags.comment_tag", "CommentNode", "nothing"), ("liquid.builtin.tags.doc_tag", "DocNode", "nothing"), ("liquid.builtin.tags.inline_comment_tag", "InlineCommentNode", "nothing"), ("liquid.builtin.content", "ContentNode", "text")):
         res = load.find_method(m, cls, "render_to_output")
